@@ -1079,4 +1079,57 @@ theorem wanted_of_route {sites : List Site} {cfgs : List Cfg} {name path : Bytes
         simp [List.find?, hkd]
       exact finish [] hsk hkd (by rw [hchost]; exact halias)
 
+/-! ### one connection against a listener written as a Casketfile (`c06.loaded`) -/
+
+theorem connectSH_fst (aesni : Bool) (sites : List Casket.VHost.Site) (cfgs : List Cfg) (sni host path : Bytes) :
+    (connectSH aesni sites cfgs sni host path).1 = pipeline aesni cfgs sni none := by
+  unfold connectSH
+  cases hp : pipeline aesni cfgs sni none <;> rfl
+
+/-- what the listener keeps of a site: how the routing trie files its address (host in lower case without port,
+path), the fallback flag and the host pattern -/
+def siteMeaning (s : Casket.VHost.Site) : (Bytes × Bytes) × Bool × Bytes :=
+  (Casket.VHost.splitHostPath (Casket.VHost.vhostOf s.key), s.fallback, s.addrHost)
+
+theorem insertAll_congr (s1 s2 : List Casket.VHost.Site) (h : s1.map siteMeaning = s2.map siteMeaning) :
+    ∀ (t : Casket.VHost.Trie) (i : Nat), Casket.VHost.insertAll t s1 i = Casket.VHost.insertAll t s2 i := by
+  induction s1 generalizing s2 with
+  | nil =>
+    cases s2 with
+    | nil => intro t i; rfl
+    | cons b r => simp at h
+  | cons a r ih =>
+    cases s2 with
+    | nil => simp at h
+    | cons b r2 =>
+      simp only [List.map_cons, List.cons.injEq] at h
+      intro t i
+      have hk : Casket.VHost.splitHostPath (Casket.VHost.vhostOf a.key) = Casket.VHost.splitHostPath (Casket.VHost.vhostOf b.key) :=
+        congrArg Prod.fst h.1
+      have : t.insert (Casket.VHost.vhostOf a.key) i = t.insert (Casket.VHost.vhostOf b.key) i := by
+        unfold Casket.VHost.Trie.insert
+        rw [hk]
+      unfold Casket.VHost.insertAll
+      rw [this]
+      exact ih r2 h.2 _ _
+
+theorem fallbacks_congr (s1 s2 : List Casket.VHost.Site) (h : s1.map siteMeaning = s2.map siteMeaning) :
+    (s1.filter (·.fallback)).map (·.addrHost) = (s2.filter (·.fallback)).map (·.addrHost) := by
+  induction s1 generalizing s2 with
+  | nil =>
+    cases s2 with
+    | nil => rfl
+    | cons b r => simp at h
+  | cons a r ih =>
+    cases s2 with
+    | nil => simp at h
+    | cons b r2 =>
+      simp only [List.map_cons, List.cons.injEq] at h
+      have hf : a.fallback = b.fallback := congrArg (fun x => x.2.1) h.1
+      have ha : a.addrHost = b.addrHost := congrArg (fun x => x.2.2) h.1
+      have := ih r2 h.2
+      by_cases hb : b.fallback = true
+      · simp [List.filter, hf, hb, ha, this]
+      · simp [List.filter, hf, hb, this]
+
 end Casket.TLSGroup
